@@ -262,7 +262,7 @@ def defects(rng, rows, model):
             yield "untokenizable-type", variant(i, setcell(5, bad)), i + 1, None
         ftype = rows[i][5]
         if kind != "fixed":
-            for bad in ("abc", "1...x", "1 2", "...", ",", "1,,5", ",1", "1,", "1...5...", "1::5", "...1...", "1......5"):
+            for bad in ("abc", "1...x", "1 2", "...", ",", "1,,5", ",1", "1,", "1...5...", "1::5", "...1...", "1......5", "5...6, 1...10", "3, ...5", "3, 1...", "2...4, 0..."):
                 yield "malformed-length", variant(i, setcell(4, bad)), i + 1, None
             for bad in ("2.5", "0.5...1.5", "1e1", "1...2.0"):
                 # a length is a number of characters: fractions are malformed for every type
@@ -279,7 +279,7 @@ def defects(rng, rows, model):
                 yield "fixed-length-below-one:%s" % ftype, variant(i, setcell(4, bad)), i + 1, None
             for bad in ("2.5", "1.5", "1e1"):
                 yield "fractional-length:%s" % ftype, variant(i, setcell(4, bad)), i + 1, None
-        bad_rules = {"Integer": ["abc", "1...x", "5...1", "1.5...2", "1,,5", "1...5...", "1::5", ",1"], "Decimal": ["x", "1...y", "'a'", "1,,5", "1...5...", "1.5::2.5", "1_000...2_000", "1.0_1"], "Choice": ["a,,b", "a,", ",a", "a b"],
+        bad_rules = {"Integer": ["abc", "1...x", "5...1", "1.5...2", "1,,5", "1...5...", "1::5", ",1", "5...6, 1...10", "3, ...5"], "Decimal": ["x", "1...y", "'a'", "1,,5", "1...5...", "1.5::2.5", "1_000...2_000", "1.0_1", "5.5...6, 1...10.5"], "Choice": ["a,,b", "a,", ",a", "a b"],
                      "Constant": ["a b", "a, b"]}.get(ftype, [])
         for bad in bad_rules:
             def m(r, bad=bad):
@@ -330,6 +330,8 @@ def defects(rng, rows, model):
                       ("undeclared-field-in-distinctcount-after-or", ["C", "new", "DistinctCount", names[0] + " < 1 or no_such_field"]),
                       ("undeclared-field-in-distinctcount-after-and", ["C", "new", "DistinctCount", names[0] + " < 0 and no_such_field > 1"]),
                       ("undeclared-field-in-distinctcount-conditional", ["C", "new", "DistinctCount", names[0] + " < 9 if True else no_such_field"]),
+                      ("undeclared-field-in-distinctcount-dunder", ["C", "new", "DistinctCount", names[0] + " == 0 or __dict__ == 1"]),
+                      ("undeclared-field-in-distinctcount-dunder", ["C", "new", "DistinctCount", names[0] + " == 0 or __init__"]),
                       ("isunique-empty-rule", ["C", "new", "IsUnique", ""]),
                       ("isunique-untokenizable-rule", ["C", "new", "IsUnique", "(" + names[0]]),
                       ("isunique-untokenizable-rule", ["C", "new", "IsUnique", names[0] + ", '" + names[-1]]),
@@ -441,7 +443,8 @@ def run(ctx):
         # a DistinctCount rule is a Python expression over the counted field ("any comparison operator or mathematical
         # expression"): rules naming only that field stay sound however often they name it
         counted = model.fields[rng.randrange(len(model.fields))]["name"]
-        for rule in ("%s >= 0 and %s <= 99" % (counted, counted), "%s < 5 or %s > 7 or %s == 6" % (counted, counted, counted), "%s - 3 < 99 and abs(%s) >= 0" % (counted, counted)):
+        for rule in ("%s >= 0 and %s <= 99" % (counted, counted), "%s < 5 or %s > 7 or %s == 6" % (counted, counted, counted), "%s - 3 < 99 and abs(%s) >= 0" % (counted, counted),
+                     "%s in [n * n for n in range(12)]" % counted, "%s <= sum(1 for step in range(50))" % counted, "%s < (lambda limit: limit * 2)(40)" % counted):
             if not model.checks or rng.random() < 0.5:
                 check_accept(ctx, rows + [["C", "expression over the count", "DistinctCount", rule]], "distinctcount-expression")
         # the always-empty filler column of the documentation (Constant, may be empty, no rule), in every format
